@@ -294,7 +294,7 @@ func c11ArgsAgain(m methodRef, call C17Call, t c11Target, twin any) ([]reflect.V
 }
 
 var c11RecvGen = TreeGen{MaxDepth: 3, MaxWidth: 4, Budget: 16, Kinds: stackKinds,
-	Leaf: func(t *rapid.T) Val { return genPrimVal(t, true, true) }, Conds: true, CondExprStack: true, InvalidConds: true, NilLeaves: true, EmptyStacks: true,
+	Leaf: func(t *rapid.T) Val { return genPrimVal(t, true, true) }, Conds: true, CondExprStack: true, CondExprCond: true, InvalidConds: true, NilLeaves: true, EmptyStacks: true,
 	Options: true, Caps: true, IndexOpts: true, MutexOpt: true, FIFOOpt: true, Wraps: true}
 
 func genC11(t *rapid.T, tier Tier) C11Case {
